@@ -212,10 +212,14 @@ class Unit:
             if isinstance(unit_expr, bytes):
                 unit_expr = unit_expr.decode("utf-8")
 
-            # this cache substantially speeds up unit conversions
-            if registry and unit_expr in registry._unit_object_cache:
-                return registry._unit_object_cache[unit_expr]
-            unit_cache_key = unit_expr
+            # this cache substantially speeds up unit conversions. It holds
+            # units looked up in the registry only: a unit given explicit
+            # values (a copy of a unit made before the registry was edited)
+            # is neither answered from the cache nor stored in it
+            if base_value is None and dimensions is None:
+                if registry and unit_expr in registry._unit_object_cache:
+                    return registry._unit_object_cache[unit_expr]
+                unit_cache_key = unit_expr
             unit_expr = parse_unyt_expr(unit_expr)
         # Make sure we have an Expr at this point.
         if not isinstance(unit_expr, Expr):
